@@ -212,6 +212,10 @@ def sender_body(P, R):
     for nm, pred in (('writes the message', msgw), ('writes one newline', nl), ('flushes', fl)):
         sites = [t for t in snd.sites() if pred(t)]
         if not sites:
+            if nm == 'flushes' and any(msgw(t) for t in snd.sites()):
+                # the message goes through stdio but nothing pushes it out: it reaches the server only with some later output
+                R.ob('C09.FMT.2', False, snd, 'the sender writes its message through stdio and flushes it before returning (no fflush(stdout) in the sender)', key='once:flushes')
+                continue
             R.broke('C09.FMT.2: the sender no longer %s with the recognised stdio calls - its shape changed' % nm)
             continue
         p = snd.path_avoiding(None, pred, from_entry=True)
